@@ -21,7 +21,9 @@ Two structural rules (must fire once each) recognise the statement shapes
 and the element of an expression is built by vocabulary rules (any count; an unknown function or name is an extraction break):
     xt::adapt(X)        -> X[a]                 NAME (defined by S1) -> NAME[a]          scalar literal c -> c (broadcast)
     xt::equal(A, c)     -> (A[a] == c)          xt::where(C, t, f)   -> (C[a] ? t : f)
-    xt::square(A)       -> fsl_sq(A[a])         A * B                -> fsl_emul(A[a], B[a])
+    xt::square(A), A * A -> fsl_sq(A[a])        A * B                -> fsl_emul(A[a], B[a])
+    (not used by the code today, kept so that a changed expression is still extracted and judged: xt::not_equal / less / less_equal /
+     greater / greater_equal -> comparison, xt::abs -> FSL_ABS, xt::cast<T> -> (T))
 ASSUMED xtensor semantics (xtensor 0.24, checked by reading xmath.hpp / xreducer.hpp, not by a proof): xt::adapt of a
 std::array of 2 is the array itself (2 axes, element a = array[a]); equal / where / square / `*` are element-wise, scalars broadcast; an
 `auto` expression object is evaluated lazily at its use, which equals eager evaluation here because its operands are not modified
@@ -29,16 +31,19 @@ in between; `xt::sum(e)(0)` over a 1-D expression of 2 elements is `init = 0.; f
 (XTENSOR_REDUCER_FUNCTION(sum, plus, value_type, 0), xreducer_stepper::aggregate_impl: left to right, starting from 0).
 
 Floating point.  Every back end times out on `(1.0 * s) * (1.0 * s) == s * s` and on `x == y ==> x * x == y * y` (measured: SAT,
-cadical, z3, cvc5 > 90 s): two multiplier circuits whose inputs are equal but not the same symbols.  The function-level proof
-therefore treats each arithmetic operation as a call whose contract is (i) one-operation FACTS that are proved bit-precisely against the
-real IEEE operation in the groups distances.lemma.* and (ii) a TABLE clause "equal operands, equal result" (determinism of the IEEE
-operation, ASSUMED) keyed on harness-owned ghosts that ARE the real products / sum of the spacing:
+cadical, kissat, z3, cvc5 > 90 - 200 s): two multiplier circuits whose inputs are equal but not the same symbols.  The function-level
+proof therefore treats each arithmetic operation as a call whose contract is (i) one-operation FACTS, proved bit-precisely against the
+real IEEE operation (distances.lemma.emul / sq / add / sqrt), and (ii) a TABLE clause "operands equal to the key, result equal to
+the ghost" (determinism of the operation) keyed on harness-owned ghosts that ARE the real products / sum of the spacing:
     GS[a] the spacing,  Q[a] == GS[a] * GS[a],  QSUM == Q[0] + Q[1]   (IEEE operations, stated in `requires` over globals: one circuit)
     ROOT[p] = sqrt(RAD_p) for the four offset patterns p = 2 * [row offset != 0] + [col offset != 0],
               RAD_0 = 0, RAD_1 = Q[1], RAD_2 = Q[0], RAD_3 = QSUM   (sqrt abstracted as a deterministic function)
-so the top-level clause reads bit-precisely: compute_distance(off, spacing) == sqrt(sx * sx) for a column step, sqrt(sy * sy) for a
-row step, sqrt(sy * sy + sx * sx) for a diagonal step (row term first, as in the left-to-right sum), 0 for no step; >= 0; == 0 for the
-zero offset; > 0 for a step along an axis whose squared spacing did not underflow to 0."""
+The TABLE clauses of `*` and `+` are proved too: `+` directly (distances.lemma.add_deterministic, cadical), `*` by cases
+(distances.lemma.sq_deterministic: bit-identical operands -- kissat closes that miter in ~20 s; distances.lemma.sq_cases: equal non-zero
+doubles are bit-identical, zeros, NaNs).  So the top-level clause reads bit-precisely: compute_distance(off, spacing) == sqrt(sx * sx)
+for a column step, sqrt(sy * sy) for a row step, sqrt(sy * sy + sx * sx) for a diagonal step (row term first, as in the
+left-to-right sum), sqrt(0) = 0 for no step; >= 0; == 0 for the zero offset; > 0 for a step along an axis whose squared spacing did
+not underflow to 0.  Only sqrt itself stays abstract (a function of its operand with the sign behaviour of sqrt)."""
 import re
 
 from fv import extract as ex
@@ -65,6 +70,7 @@ MODEL = r"""
 #endif
 #define SAME_D(x, y) ((x) == (y) || (isnan(x) && isnan(y)))
 #define FIN(x) (!isnan(x) && !isinf(x))
+#define FSL_ABS(x) ((x) < 0 ? -(x) : (x))
 /* ghosts (harness-owned, never assigned by the code) */
 double GS[FSL_NAXES];   /* the grid spacing: GS[0] between rows, GS[1] between columns */
 double Q[FSL_NAXES];    /* Q[a] == GS[a] * GS[a] */
@@ -89,9 +95,11 @@ double ROOT[4];         /* ROOT[p] stands for sqrt(RAD_p) */
 #ifdef DIST_REAL_OPS   /* lemma groups: the real operation, FACTS enforced */
 #define DIST_BODY(b) b
 #define DIST_TABLE(e)
+#define DIST_TABLE_REQ(e)
 #else                  /* function-level groups: calls replaced by FACTS + TABLE */
 #define DIST_BODY(b) ;
 #define DIST_TABLE(e) __CPROVER_ensures(e)
+#define DIST_TABLE_REQ(e) __CPROVER_requires(e)   /* the TABLE clauses are true of the real operation when the ghosts are what GHOST_DEF says */
 #endif
 
 /* element of `where(equal(offset, 0), 0., 1.) * spacing`: the selector is 0. or 1. */
@@ -104,6 +112,7 @@ DIST_BODY({ return w * s; })
 
 /* element of xt::square */
 double fsl_sq(double x)
+DIST_TABLE_REQ(GHOST_DEF)
 __CPROVER_assigns()
 __CPROVER_ensures(x == 0. ==> __CPROVER_return_value == 0.)                    /* (+-0)^2 == 0 */
 __CPROVER_ensures(!(__CPROVER_return_value < 0.))                              /* a square is not negative */
@@ -114,6 +123,7 @@ DIST_BODY({ return x * x; })
 
 /* one step of the left-to-right sum */
 double fsl_add(double x, double y)
+DIST_TABLE_REQ(GHOST_DEF)
 __CPROVER_assigns()
 __CPROVER_ensures(x == 0. ==> SAME_D(__CPROVER_return_value, y))               /* 0 + y == y */
 __CPROVER_ensures(y == 0. ==> SAME_D(__CPROVER_return_value, x))               /* x + 0 == x */
@@ -158,7 +168,9 @@ def _split(s, sep):
     return [x.strip() for x in out]
 
 
-XT_ARITY = {"adapt": 1, "equal": 2, "where": 3, "square": 1}
+XT_ARITY = {"adapt": 1, "equal": 2, "not_equal": 2, "less": 2, "less_equal": 2, "greater": 2, "greater_equal": 2, "where": 3, "square": 1,
+            "abs": 1, "cast": 1}
+XT_CMP = {"equal": "==", "not_equal": "!=", "less": "<", "less_equal": "<=", "greater": ">", "greater_equal": ">="}
 
 
 def xt_element(e, arrays, idx="fsl_a"):
@@ -167,23 +179,29 @@ def xt_element(e, arrays, idx="fsl_a"):
     factors = _split(e, "*")
     if len(factors) > 1:
         out = xt_element(factors[0], arrays, idx)
-        for f in factors[1:]:
+        for k, f in enumerate(factors[1:]):
+            if k == 0 and len(factors) == 2 and f == factors[0]:
+                return "fsl_sq(%s)" % out          # A * A is the element-wise square
             out = "fsl_emul(%s, %s)" % (out, xt_element(f, arrays, idx))
         return out
-    m = re.match(r"^xt::(\w+)\((.*)\)$", e, re.S)
+    m = re.match(r"^xt::(\w+)(?:<\s*(\w+)\s*>)?\((.*)\)$", e, re.S)
     if m and ex.match_brace(e, e.index("("), "(", ")") == len(e) - 1:
-        fn, args = m.group(1), _split(m.group(2), ",")
-        if fn not in XT_ARITY or len(args) != XT_ARITY[fn]:
+        fn, targ, args = m.group(1), m.group(2), _split(m.group(3), ",")
+        if fn not in XT_ARITY or len(args) != XT_ARITY[fn] or (targ is not None) != (fn == "cast"):
             raise ex.ExtractionError("xtensor expression: no element rule for xt::%s with %d argument(s)" % (fn, len(args)))
         if fn == "adapt":
             if not re.match(r"^[A-Za-z_]\w*$", args[0]):
                 raise ex.ExtractionError("xtensor expression: xt::adapt of %r" % args[0])
             return "%s[%s]" % (args[0], idx)
         a = [xt_element(x, arrays, idx) for x in args]
-        if fn == "equal":
-            return "(%s == %s)" % (a[0], a[1])
+        if fn in XT_CMP:
+            return "(%s %s %s)" % (a[0], XT_CMP[fn], a[1])
         if fn == "where":
             return "(%s ? %s : %s)" % (a[0], a[1], a[2])
+        if fn == "abs":
+            return "FSL_ABS(%s)" % a[0]
+        if fn == "cast":
+            return "((%s) %s)" % (targ, a[0])
         return "fsl_sq(%s)" % a[0]
     if re.match(r"^[A-Za-z_]\w*$", e):
         if e not in arrays:
@@ -248,6 +266,7 @@ void h_cd(void)
 G_CD = Group(
     name="distances.compute", units=[compute_distance], harness=H_CD, entry="h_cd", enforce="compute_distance", replace=OPS,
     unwindset={("compute_distance", 0): 3, ("compute_distance", 1): 3}, backend="cadical", timeout=300, min_obligations=10, replay=REPLAY,
+    object_bits=9,   # 8 replaced calls sit just below cbmc's default of 2^8 objects: a changed body with one more call must still be judged
     clause="compute_distance(offset, spacing), any offsets, finite spacing: result == sqrt(sum over the axes with a non-zero offset of "
            "spacing^2) -- sqrt(sx*sx) / sqrt(sy*sy) / sqrt(sy*sy + sx*sx) / 0 with the products and the sum the real IEEE operations and sqrt a "
            "deterministic function; >= 0; == 0 for the zero offset; > 0 for a step along an axis with spacing^2 > 0; the magnitude and sign of "
@@ -277,6 +296,32 @@ void h_%s(void)
 G_LEMMAS = [lemma_group("fsl_emul", ["w", "s"]), lemma_group("fsl_sq", ["x"]), lemma_group("fsl_add", ["x", "y"]),
             lemma_group("fsl_sqrt", ["x"])]
 
+# determinism of `*` at the table key, decomposed: the direct miter `x == y ==> x * x == y * y` times out everywhere (kissat 200 s), but with
+# BIT-IDENTICAL operands kissat closes it in ~20 s (cadical ~60 s), and `==` on doubles that are neither zero nor NaN is bit identity
+SQ_DET_PRE = ND + MODEL + r"""
+union fsl_du { double d; uint64_t u; };
+uint64_t nondet_u64(void);
+void h_sq_det(void)
+{
+    union fsl_du x, y;
+    x.u = nondet_u64(); y.u = nondet_u64();
+    double a = x.d * x.d, b = y.d * y.d;
+%s
+%s}
+"""
+H_SQ_DET = SQ_DET_PRE % ('    __CPROVER_assert(x.u == y.u ==> SAME_D(a, b), "D2: bit-identical operands, equal squares (IEEE multiplication is a function of its operands)");', CANARY)
+H_SQ_CASES = SQ_DET_PRE % ("""    __CPROVER_assert((x.d == y.d && x.d != 0.) ==> x.u == y.u, "D1: equal doubles that are not zero have identical bits");
+    __CPROVER_assert((x.d == 0. && y.d == 0.) ==> a == b, "D3a: zeros of either sign have equal squares");
+    __CPROVER_assert((isnan(x.d) && isnan(y.d)) ==> (isnan(a) && isnan(b)), "D3b: the square of a NaN is a NaN");""", CANARY)
+G_SQ_DET = [
+    Group(name="distances.lemma.sq_deterministic", units=[], harness=H_SQ_DET, entry="h_sq_det", backend="kissat", timeout=600, min_obligations=1,
+          clause="TABLE clause of fsl_sq, main case D2: bit-identical operands have equal squares (the two-multiplier miter; spec-level lemma, "
+                 "nothing assumed)"),
+    Group(name="distances.lemma.sq_cases", units=[], harness=H_SQ_CASES, entry="h_sq_det", timeout=120, min_obligations=3,
+          clause="TABLE clause of fsl_sq, remaining cases: D1 equal non-zero doubles are bit-identical, D3 zeros of either sign / NaNs have equal "
+                 "squares; with D2: SAME_D(x, y) ==> SAME_D(x * x, y * y)"),
+]
+
 # determinism of `+` at the table key is within reach of cadical (the adder miter, ~40 s alone); that of `*` is not (see docstring)
 H_ADD_DET = ND + MODEL + r"""
 void h_add_det(void)
@@ -287,7 +332,7 @@ void h_add_det(void)
 %s}
 """ % CANARY
 G_ADD_DET = Group(name="distances.lemma.add_deterministic", units=[], harness=H_ADD_DET, entry="h_add_det", backend="cadical", timeout=600,
-                  min_obligations=1, tier="thorough",
+                  min_obligations=1,
                   clause="TABLE clause of fsl_add: equal operands (==, or both NaN) give equal sums (spec-level lemma, adder miter)")
 
 
@@ -336,8 +381,6 @@ __CPROVER_requires(GK < 9 && GI < NB_MAX)   /* an arbitrary location code and sl
 __CPROVER_assigns(__CPROVER_object_whole(nb_distances))
 /* C07: the GI-th distance stored for location code GK is the Euclidean length of the GI-th offset stored for that code */
 __CPROVER_ensures(GI < coded_n[GK] ==> SAME_D(nb_distances[NB_MAX * GK + GI], PATROOT(%(o0)s, %(o1)s)))
-/* slots beyond the list are the zeros of the value-initialised array (no uninitialised value is stored) */
-__CPROVER_ensures(GI >= coded_n[GK] ==> nb_distances[NB_MAX * GK + GI] == 0.)
 """ % dict(lens=" && ".join("coded_n[%d] <= NB_MAX" % k for k in range(9)), o0=SLOT_OFF % ("GK", "GI", 0), o1=SLOT_OFF % ("GK", "GI", 1))
 
 build_distances = Unit(
@@ -359,7 +402,7 @@ void h_bcd(void)
     u = "build_coded_neighbors_distances"
     return Group(name="distances.raster.build.nb%d" % nbmax, units=[compute_distance, build_distances], harness=h, entry="h_bcd", enforce=u,
                  replace=["compute_distance"], defines=["NB_MAX=%d" % nbmax], unwindset={(u, 0): 10, (u, 1): nbmax + 1, (u, 2): nbmax + 1},
-                 backend="cadical", timeout=600, min_obligations=20, replay=REPLAY, object_bits=10,   # cbmc asks for more than 2^8 objects
+                 backend="cadical", timeout=600, min_obligations=20, replay=REPLAY, object_bits=(11 if nbmax > 4 else 10),   # cbmc asks for more than 2^8 (2^10) objects
                  clause="build_coded_neighbors_distances (n_neighbors_max = %d): for every location code k and slot i < number of offsets of k, "
                         "distances[k][i] == compute_distance(offsets(k)[i], spacing) == Euclidean length of that offset (ghost code / ghost slot; the 9 "
                         "codes and the slots are unwound completely); no write outside the row" % nbmax)
@@ -484,9 +527,31 @@ G_SYM = Group(name="distances.symmetry", units=[compute_distance], harness=H_SYM
                      "which offsets are non-zero, so d(a -> b) == d(b -> a) (offsets within +-2^20; harness assumptions are the spec's own domain)")
 
 
+# =========================================================================== 6. offsets of steps: non-zero exactly on the axes the step moves along
+def step_pattern_group():
+    asserts = []
+    for dr, dc in rs.STEPS["queen"]:
+        asserts.append('    __CPROVER_assert((((ptrdiff_t) TGT_R(GR, %d) - (ptrdiff_t) GR) != 0) == (%d != 0) && (((ptrdiff_t) TGT_C(GC, %d) - (ptrdiff_t) GC) != 0) == (%d != 0), '
+                       '"step (%d,%d): the offset target - node is non-zero exactly on the axes the step moves along (wrap included)");' % (dr, dr, dc, dc, dr, dc))
+    h = rs.ND + rs.GEO + r"""
+void h_pat(void)
+{
+    size_t m_shape0 = nondet_size_t(), m_shape1 = nondet_size_t();
+    GR = nondet_size_t(); GC = nondet_size_t();
+    /* the spec's own domain: at least two nodes per axis (with one node a wrap offset would be 0), node inside */
+    __CPROVER_assume(2 <= m_shape0 && m_shape0 <= DIM_MAX && 2 <= m_shape1 && m_shape1 <= DIM_MAX && GR < m_shape0 && GC < m_shape1);
+%s
+%s}
+""" % ("\n".join(asserts), CANARY)
+    return Group(name="distances.step_pattern", units=[rs.base], harness=h, entry="h_pat", timeout=120, min_obligations=8,
+                 clause="spec-level lemma: for every node of a grid with >= 2 nodes per axis and each of the 8 steps (dr, dc), the offset "
+                        "((r + dr) mod nrows - r, (c + dc) mod ncols - c) is non-zero on an axis iff the step moves along it, so PATROOT(offset) is the "
+                        "Euclidean length of the step: sqrt(dr^2 * sy^2 + dc^2 * sx^2) with |dr|, |dc| <= 1")
+
+
 G_RASTER = [build_group(8), build_group(4), raster_impl_group(8), raster_impl_group(4)]
 GROUPS = {
-    "C07": [G_CD] + G_LEMMAS + [G_ADD_DET] + G_RASTER + G_PROFILE + [G_SYM],
+    "C07": [G_CD] + G_LEMMAS + G_SQ_DET + [G_ADD_DET] + G_RASTER + G_PROFILE + [G_SYM, step_pattern_group()],
     "C08": [G_CD] + G_RASTER + G_PROFILE,
 }
 PROPS = {
@@ -498,16 +563,16 @@ PROPS = {
                     "sqrt; the raster distance table pairs the k-th distance with the k-th offset of each of the 9 location codes (complete unwinding), "
                     "neighbors_distances_impl returns the row of the node's code, the profile reports `spacing` twice for every node, and distances are "
                     "symmetric (d(a -> b) == d(b -> a)).  `other` because the arithmetic operations are linked to the function-level proof by "
-                    "one-operation lemmas plus the determinism of IEEE `*` (no back end decides the two-multiplier miter), and because "
-                    "|sqrt(fl(s * s))| == |s| (true without over/underflow) is not decided.",
+                    "one-operation lemma groups (substitution of proved contracts, case analysis for the determinism of `*`), sqrt stays abstract, and "
+                    "sqrt(fl(s * s)) == |s| (true without over/underflow) is not decided.",
         assumptions=[
             "xtensor semantics ASSUMED by the extraction of compute_distance: xt::adapt(std::array of 2) is the array (2 axes); xt::equal / xt::where / "
             "xt::square / `*` are element-wise with scalar broadcast; the lazily evaluated `auto drc` expression equals its eager evaluation (operands "
             "unmodified); xt::sum(e)(0) == ((0. + e[0]) + e[1]) (left to right from the initial value 0, xtensor 0.24 xreducer_stepper::aggregate_impl)",
-            "determinism of the IEEE operations at the ghost-table keys (TABLE clauses of fsl_sq / fsl_add / fsl_sqrt): x == GS[a] ==> x * x == GS[a] * GS[a]; "
-            "(x, y) == (Q[0], Q[1]) ==> x + y == Q[0] + Q[1]; equal radicands, equal square roots.  For `+` this is distances.lemma.add_deterministic "
-            "(thorough tier); for `*` SAT, cadical, z3 and cvc5 all time out (> 90 s) and it is assumed; sqrt is abstracted as a deterministic "
-            "function whose sign behaviour (ROOT_FACT) is proved on cbmc's library model of sqrt only (distances.lemma.sqrt)",
+            "sqrt is abstracted as a deterministic function of its operand (ghost table ROOT: equal radicands, equal roots) whose sign behaviour "
+            "(ROOT_FACT: r >= 0 for x >= 0, r == 0 for x == 0, r > 0 for x > 0) is proved on cbmc's library model of sqrt only (distances.lemma.sqrt); "
+            "`*` and `+` are calls with contracts in the function-level groups: their FACTS and their TABLE (determinism) clauses are proved against "
+            "the real IEEE operations in distances.lemma.*",
             "grid spacing is finite (FIN(GS[a]) in GHOST_DEF; with an infinite or NaN spacing 0.0 * spacing is NaN and every distance is NaN)",
             "std::transform(first, last, out, f) writes out[i] = f(first[i]) for i = 0 .. n - 1 in order; the by-reference lambda to_dist is its body with the "
             "captured copy of m_spacing; `auto offsets = neighbor_offsets(k)` (a copy of an immutable list) is a view; the value-initialised distance row "
@@ -515,14 +580,21 @@ PROPS = {
             "precondition instances (producers named in each contract): every stored offset list has at most n_neighbors_max entries "
             "(raster.coded_offsets.*), the stored code of a node is one of the 9 location codes (raster.codes), the distance table entry at the ghost "
             "(code, slot) (distances.raster.build.*), the profile table (distances.profile.build)",
-            "distances.symmetry and distances.lemma.add_deterministic are spec-level harnesses whose __CPROVER_assume lines state the lemma's own "
-            "hypothesis / the spec's domain (offsets within +-2^20, GHOST_OK)",
+            "distances.symmetry, distances.step_pattern and distances.lemma.add_deterministic are spec-level harnesses whose __CPROVER_assume lines state the lemma's own "
+            "hypothesis / the spec's domain (offsets within +-2^20, GHOST_OK, shape in [2, 2^20]^2 and node inside)",
         ],
         unmechanised=[
+            "Euclidean length of the step: distances.step_pattern (the offset target - node of a step (dr, dc) is non-zero exactly on the axes with "
+            "d != 0, |d| = 1, on grids with >= 2 nodes per axis) + distances.compute (length depends on that pattern only) ==> the stored distance of an "
+            "offset is sqrt(dr^2 * sy^2 + dc^2 * sx^2) of its step",
             "distance/index pairing per slot: distances.raster.impl.* (slot i's distance is the length of offset i of the node's code) + "
             "raster.indices.nb* (slot i's index is built from the same offset i) + raster.coded_offsets.* (that offset is target - node of an admissible "
             "step) ==> the distance reported with a neighbour is the Euclidean length of the step that leads to it (same slot, same offset)",
             "symmetry at grid level: distances.symmetry (negated offset, same distance) + raster.symmetry.* (b is a neighbour of a as often as a of b)",
+            "determinism of `*` at the table key from its cases: SAME_D(x, y) ==> (both NaN | both zero | x == y non-zero, hence bit-identical by D1) "
+            "==> SAME_D(x * x, y * y) by D3b | D3a | D2 (distances.lemma.sq_cases, distances.lemma.sq_deterministic); the contracts of fsl_emul / "
+            "fsl_sq / fsl_add / fsl_sqrt used by replacement in distances.compute are the ones enforced in distances.lemma.* (same text, "
+            "DIST_REAL_OPS selects body + FACTS or FACTS + TABLE)",
             "from the ghost (code, slot) to all codes and slots; interpretation of the ghosts: Q[a], QSUM are constrained to the real IEEE values in "
             "GHOST_DEF, ROOT[p] reads sqrt(RAD_p) by the determinism assumption",
         ],
